@@ -57,6 +57,10 @@ import (
 	"github.com/hashicorp/consul/agent/connect"
 	"github.com/hashicorp/consul/agent/structs"
 	"github.com/hashicorp/consul/internal/verifkit"
+	"github.com/hashicorp/consul/sdk/testutil"
+	"github.com/hashicorp/consul/types"
+	"github.com/hashicorp/go-uuid"
+	"github.com/hashicorp/memberlist"
 )
 
 // verifC12CSR is one submission: everything needed to rebuild the CSR and the authorizer byte for byte (keys aside).
@@ -86,12 +90,21 @@ type verifC12Env struct {
 
 func verifC12NewEnv(t *testing.T) *verifC12Env {
 	t.Helper()
-	dir, srv := testServerWithConfig(t, func(c *Config) {
-		c.PrimaryDatacenter = "dc1"
-		c.Datacenter = "dc1"
-		c.CAConfig.Config["CSRMaxPerSecond"] = 0
-		c.CAConfig.Config["CSRMaxConcurrent"] = 0
-	})
+	// The upstream testServerConfig with two changes: the CSR rate limits are off, and every listener binds to port 0
+	// instead of a port from sdk/freeport. freeport reserves one of only 15 machine-wide port blocks per PROCESS and
+	// panics when none is free — which happens as soon as a dozen test binaries that start servers run side by side
+	// (16 shards of this check, other checks, the upstream suite). Nothing here needs a predictable port.
+	dir, config := verifC12ServerConfig(t)
+	config.CAConfig.Config["CSRMaxPerSecond"] = 0
+	config.CAConfig.Config["CSRMaxConcurrent"] = 0
+	config.ACLResolverSettings.ACLsEnabled = config.ACLsEnabled
+	config.ACLResolverSettings.NodeName = config.NodeName
+	config.ACLResolverSettings.Datacenter = config.Datacenter
+	config.ACLResolverSettings.EnterpriseMeta = *config.AgentEnterpriseMeta()
+	srv, err := newServerWithDeps(t, config, newDefaultDeps(t, config))
+	if err != nil {
+		t.Fatalf("harness: cannot start the test server: %v", err)
+	}
 	t.Cleanup(func() {
 		srv.Shutdown()
 		os.RemoveAll(dir)
@@ -122,6 +135,57 @@ func verifC12NewEnv(t *testing.T) *verifC12Env {
 		env.keys = append(env.keys, k)
 	}
 	return env
+}
+
+// verifC12ServerConfig is server_test.go's testServerConfig with all ports 0 (see verifC12NewEnv).
+func verifC12ServerConfig(t *testing.T) (string, *Config) {
+	dir := testutil.TempDir(t, "consul")
+	config := DefaultConfig()
+	config.NodeName = uniqueNodeName(t.Name())
+	config.Bootstrap = true
+	config.Datacenter = "dc1"
+	config.PrimaryDatacenter = "dc1"
+	config.DataDir = dir
+	config.RPCAddr = &net.TCPAddr{IP: []byte{127, 0, 0, 1}, Port: 0}
+	nodeID, err := uuid.GenerateUUID()
+	if err != nil {
+		t.Fatal(err)
+	}
+	config.NodeID = types.NodeID(nodeID)
+	for _, mc := range []*memberlist.Config{config.SerfLANConfig.MemberlistConfig, config.SerfWANConfig.MemberlistConfig} {
+		mc.BindAddr = "127.0.0.1"
+		mc.BindPort = 0
+		mc.AdvertisePort = 0
+		mc.SuspicionMult = 2
+		mc.ProbeTimeout = 50 * time.Millisecond
+		mc.ProbeInterval = 100 * time.Millisecond
+		mc.GossipInterval = 100 * time.Millisecond
+		mc.DeadNodeReclaimTime = 100 * time.Millisecond
+	}
+	config.RaftConfig.LeaderLeaseTimeout = 100 * time.Millisecond
+	config.RaftConfig.HeartbeatTimeout = 200 * time.Millisecond
+	config.RaftConfig.ElectionTimeout = 200 * time.Millisecond
+	config.ReconcileInterval = 300 * time.Millisecond
+	config.AutopilotConfig.ServerStabilizationTime = 100 * time.Millisecond
+	config.ServerHealthInterval = 50 * time.Millisecond
+	config.AutopilotInterval = 100 * time.Millisecond
+	config.CoordinateUpdatePeriod = 100 * time.Millisecond
+	config.LeaveDrainTime = 1 * time.Millisecond
+	config.RPCHoldTimeout = 10 * time.Second
+	config.GRPCPort = 0
+	config.ConnectEnabled = true
+	config.CAConfig = &structs.CAConfiguration{
+		ClusterID: connect.TestClusterID,
+		Provider:  structs.ConsulCAProvider,
+		Config: map[string]interface{}{
+			"PrivateKey":          "",
+			"RootCert":            "",
+			"LeafCertTTL":         "72h",
+			"IntermediateCertTTL": "288h",
+		},
+	}
+	config.PeeringEnabled = true
+	return dir, config
 }
 
 func (e *verifC12Env) subst(raw string) string {
